@@ -53,6 +53,9 @@ ReqClauses(e) ==
 
 RunEnded(e) == p.t >= 0 /\ p.started /\ (~e.started \/ e.runId # p.runId)
 
+ForceDue(f, e) == /\ p.t >= f[2] + 1 /\ p.started /\ ~p.paused /\ ~p.holding /\ p.runId = e.runId
+                  /\ e.started /\ ~e.paused /\ ~e.holding /\ f[3] = e.runId
+
 TickClauses(e) ==
     << <<"C11.finalized-when-run-ends", RunEnded(e) => inited \subseteq finalized>>,
        <<"C10.no-instance-left", RunEnded(e) /\ ~e.started => e.inst = <<>> >>,
@@ -64,9 +67,11 @@ TickClauses(e) ==
        <<"C12.cancelled-pause-ends", mustUnpause /\ ~otherPause => ~e.paused \/ e.err>>,
        <<"C12.cancelled-hold-ends", mustUnhold /\ ~otherHold => ~e.holding>>,
        <<"C12.force-proceeds",     \* two tick boundaries at which the run progresses after the force: the interpreter ran in between
-         \A f \in forced : (/\ p.t >= f[2] + 1 /\ p.started /\ ~p.paused /\ ~p.holding /\ p.runId = e.runId
-                             /\ e.started /\ ~e.paused /\ ~e.holding /\ f[3] = e.runId)
-                            => f[1] \in SetOfSeq(e.proceededEver)>> >>
+         \A f \in forced : (f[4] = "" /\ ForceDue(f, e)) => f[1] \in SetOfSeq(e.proceededEver)>>,
+       \* the forced item belongs to an earlier invocation of its line (alarm or macro body run again since): the item was
+       \* never concluded, is still offered, and the accepted force is lost when the line is reset for the new invocation
+       <<"C12.force-proceeds@item-of-earlier-invocation",
+         \A f \in forced : (f[4] # "" /\ ForceDue(f, e)) => f[1] \in SetOfSeq(e.proceededEver)>> >>
 
 NoPrev == [t |-> -1]
 TInit == /\ inited = {} /\ execed = {} /\ finalized = {} /\ tickExec = {} /\ cancelledWatch = {} /\ mustFinalize = {}
@@ -94,7 +99,7 @@ Step ==
               /\ mustUnpause' = (mustUnpause \/ (e.k = "cancel" /\ e.res = "ok" /\ e.kind = "pause"))
               /\ mustUnhold' = (mustUnhold \/ (e.k = "cancel" /\ e.res = "ok" /\ e.kind = "hold"))
               /\ forced' = IF e.k = "force" /\ e.res = "ok" /\ e.kind \in {"watch", "wait", "threshold"}
-                           THEN forced \cup {<<e.node, e.t, e.runId>>} ELSE forced
+                           THEN forced \cup {<<e.node, e.t, e.runId, IF e.stale THEN "stale" ELSE "">>} ELSE forced
               /\ UNCHANGED <<inited, execed, finalized, tickExec, p, newRun, otherPause, otherHold>>
          [] e.e = "runStopped" ->
               /\ viols' = AddViols(viols, Failing(<< <<"C10.run-log-producible", e.exc = "none">>,
